@@ -33,10 +33,17 @@ MANIFEST = {
             "unchanged, no instance/class/module state written and no memoising decorator / mutable default in the 27 functions reachable "
             "from mask_func or __call__, __call__ = guards + forward, seed parameter never rebound and choose_acceleration before the "
             "return_acs return, crop before disc in poisson(), CreateSamplingMask passes the same shape/seed to both requests, "
-            "integerize_seed returns ints unchanged; the tables select the machine the theorems are about (code_machine, "
+            "integerize_seed returns ints unchanged, BaseMaskFunc.__init__ stores the configured sequences as given; the branch conditions "
+            "of the glue are translated too, `isinstance(x, T)` / `type(x) is T` as membership of a type-code parameter `ty`, and the "
+            "bridge lemmas hold for EVERY `ty` (the width depends on the value only), so a value test turned into a type test breaks "
+            "them; the tables select the machine the theorems are about (code_machine, "
             "poisson_crop_before_disc). Differential correspondence: exhaustive small-scope kernels, fl53 against CPython, ACS widths "
             "on and next to ties against real generators, real return_acs / mask calls, and whole call histories on persistent objects "
-            "run through the Lean machine with a numpy-only seed -> choice table.",
+            "run through the Lean machine with a numpy-only seed -> choice table; argument-form ladder (17 classes incl. the unguarded bases "
+            "Random/Equispaced/Magic): every centre fraction / acceleration as int, float, float-valued int, np.int64/int32, "
+            "np.float64/float32, 0-d array, torch scalar; containers list/tuple/ndarray/tensor; shape tuple/list/torch.Size/ndarray; "
+            "mode enum/lower/upper string — an accepted form must give the canonical ACS (oracle) and the model's value-based width "
+            "(num_low_value correspondence); forms the code rejects with an exception are counted, not judged.",
     "note": "Trusted: Lean kernel (+propext, Classical.choice, Quot.sound; decide +kernel for three 192/256-cell witnesses), AST "
             "translator (incl. the reused C05 walker), recording RandomState, worker subprocesses. Still computed by the harness: "
             "int(sqrt(rows*cols*cf/pi)) and the CIRCUS radii 1, 1.1, … (floor of float32 radius²); the older generator-level lines "
@@ -46,7 +53,10 @@ MANIFEST = {
             "and 'sampled part of a disc' (oracle) are made there. The state-write table follows simple local aliases (`m = self.memo`, "
             "`m = vars(self).setdefault(…)`) but not state reached through arguments, containers or C extensions; the history "
             "oracle covers those dynamically. numpy-integer seeds are rejected (ValueError) by the three "
-            "generators that call integerize_seed (Gaussian1D/2D, VariableDensityPoisson): reported in the histogram, not judged.",
+            "generators that call integerize_seed (Gaussian1D/2D, VariableDensityPoisson): reported in the histogram, not judged. "
+            "Observed on the clean tree, not judged (rejections): torch scalars/tensors as centre fractions raise TypeError (round on a "
+            "tensor) for every line generator; the base MagicMaskFunc raises TypeError for float-valued counts (8.0); Cartesian* "
+            "constructors reject everything but Python ints by design.",
     "technique": "Lean 4 proof (omega, nlinarith, interval counting, list induction, state-machine induction) + AST translation bridge "
                  "(kernels + structural tables) + differential correspondence incl. call histories",
 }
@@ -75,7 +85,8 @@ RULE = ("kernel cases: every (N, L) with N <= 40 (quick) / 80 (thorough) incl. L
         "cases: one persistent object, 2-3 pairs, ~24 interleaved mask/ACS requests, two shapes, seed forms int/bool/tuple/list/"
         "numpy/file name, falsy seeds repeated (oracle: 2 per generator quick, checked against fresh-object references; model: 1 per "
         "generator through the Lean object machine); site cases: CreateSamplingMask(return_acs=True) on 5 samples, explicit mask "
-        "shapes incl. None entries; non-trivial = 1 <= L < N (kernels) / a returned ACS with at least one sample (generators) / "
+        "shapes incl. None entries; form cases: one canonical configuration (1-2 pairs, products kept clear of float32 rounding ties) "
+        "per class x ~27 forms, quick 17 (oracle) + 12 (model) ladders; non-trivial = 1 <= L < N (kernels) / a returned ACS with at least one sample (generators) / "
         ">= 2 answered ACS requests (histories); distinct = distinct protocol line / spec")
 PENDING_FINDINGS: list[str] = []
 EXTRA_LEAN_MODULES = ['DirectVerif.Lemmas.C04List', 'DirectVerif.Lemmas.C06Assemble', 'DirectVerif.Lemmas.C06Seed',
